@@ -7,6 +7,16 @@ import random
 from . import treeio
 
 
+def fam_io_ws():
+    from . import fam_io
+    return fam_io.ASCII_WS
+
+
+def ws_split(s):
+    from . import fam_io
+    return fam_io.ws_split(s)
+
+
 def dump_gram(gram, atoms=None):
     out = []
     for func in gram:
@@ -121,13 +131,13 @@ from . import core
 
 def _lines(path, enc='utf-8'):
     with open(path, encoding=enc) as f:
-        return [ln for ln in f.read().split('\n') if ln.strip() != '']
+        return [ln for ln in f.read().split('\n') if ln.strip(fam_io_ws()) != '']
 
 
 def pmcfg_records(path, atoms, enc='utf-8'):
     out = []
     for ln in _lines(path, enc):
-        toks = ln.split()
+        toks = ws_split(ln)
         rec = {'toks': [atoms.abst(t) for t in toks], 'cnt': -1, 'pairs': []}
         if len(toks) == 2 and toks[1].isdigit():
             rec['cnt'] = int(toks[1])
@@ -137,10 +147,10 @@ def pmcfg_records(path, atoms, enc='utf-8'):
     return out
 
 
-def rcg_records(path, atoms):
+def rcg_records(path, atoms, enc='utf-8'):
     out = []
-    for ln in _lines(path):
-        toks = ln.split()
+    for ln in _lines(path, enc):
+        toks = ws_split(ln)
         cnt = int(toks[0].split(':')[1]) if ':' in toks[0] and toks[0].split(':')[1].isdigit() else -1
         preds = []
         for t in toks[1:2] + toks[3:]:
@@ -163,7 +173,7 @@ def rcg_records(path, atoms):
 def tok_records(path, atoms, enc='utf-8'):
     out = []
     for ln in _lines(path, enc):
-        toks = ln.split()
+        toks = ws_split(ln)
         out.append({'toks': [atoms.abst(t) for t in toks],
                     'nums': [int(t) if t.isdigit() else -1 for t in toks]})
     return out
@@ -202,23 +212,35 @@ def record_files_case(cid, Ts, binmode, mods, seed, with_cli=False, origin='rand
         common = {'words': [atoms.abst(w_) for w_ in words],
                   'caps': [atoms.abst(w_) for w_ in words if w_[0].isupper()]}
 
+        # the encoding of the files written and re-read through the API (a quarter of the cases each latin-1 /
+        # utf-16 when the words allow it)
+        wenc = 'utf-8'
+        if seed % 4 == 1:
+            wenc = 'utf-16'
+        elif seed % 4 == 2:
+            try:
+                ''.join(lex).encode('latin-1')
+                wenc = 'latin-1'
+            except UnicodeEncodeError:
+                pass
+
         def write(fmt, lig):
-            ev = dict(common, a='write', fmt=fmt, lig='T' if lig else 'F', files={})
+            ev = dict(common, a='write', fmt=fmt, lig='T' if lig else 'F', files={}, enc=wenc)
             dest = os.path.join(tmp, '%s_%s' % (fmt, 'lig' if lig else 'lex'))
             try:
                 with contextlib.redirect_stderr(io.StringIO()):
-                    getattr(go, fmt)(copy.deepcopy(gram), copy.deepcopy(lex), dest, 'utf-8',
+                    getattr(go, fmt)(copy.deepcopy(gram), copy.deepcopy(lex), dest, wenc,
                                      **({'lex_in_grammar': True} if lig else {}))
                 ev['res'] = 'ok'
                 if fmt == 'pmcfg':
-                    ev['files']['pmcfg'] = pmcfg_records(dest + '.pmcfg', atoms)
+                    ev['files']['pmcfg'] = pmcfg_records(dest + '.pmcfg', atoms, wenc)
                 elif fmt == 'rcg':
-                    ev['files']['rcg'] = rcg_records(dest + '.rcg', atoms)
+                    ev['files']['rcg'] = rcg_records(dest + '.rcg', atoms, wenc)
                 else:
                     for ext in ('gram', 'start', 'oc', 'OC'):
-                        ev['files'][ext] = tok_records(dest + '.' + ext, atoms)
+                        ev['files'][ext] = tok_records(dest + '.' + ext, atoms, wenc)
                 if not lig or fmt == 'lopar':
-                    ev['files']['lex'] = tok_records(dest + '.lex', atoms)
+                    ev['files']['lex'] = tok_records(dest + '.lex', atoms, wenc)
             except Exception as ex:
                 ev['res'] = 'exc'
                 ev['exc'] = type(ex).__name__ + ': ' + str(ex)[:80]
@@ -227,9 +249,9 @@ def record_files_case(cid, Ts, binmode, mods, seed, with_cli=False, origin='rand
         write('pmcfg', False)
         write('pmcfg', True)
         rdest = write('rcg', False)
-        ev = {'a': 'read_rcg'}
+        ev = {'a': 'read_rcg', 'enc': wenc}
         try:
-            g2, l2 = gi.rcg(rdest, 'utf-8')
+            g2, l2 = gi.rcg(rdest, wenc)
             ev.update({'res': 'ok', 'gram': dump_gram(g2), 'lex': dump_lex(l2, atoms)})
         except Exception as ex:
             ev.update({'res': 'exc', 'exc': type(ex).__name__ + ': ' + str(ex)[:80], 'gram': [], 'lex': []})
@@ -261,7 +283,7 @@ def record_files_case(cid, Ts, binmode, mods, seed, with_cli=False, origin='rand
                 else:
                     ev['stderr'] = p.stderr.decode('utf-8', 'replace')[-300:]
                 events.append(ev)
-            cli(lambda d: [rdest, d, 'treebank', '--src-format', 'rcg', '--dest-enc', dest_enc], 'rcg', dest_enc)
+            cli(lambda d: [rdest, d, 'treebank', '--src-format', 'rcg', '--src-enc', wenc, '--dest-enc', dest_enc], 'rcg', dest_enc)
             if not binmode:
                 tb = os.path.join(tmp, 'tb.export')
                 with open(tb, 'w', encoding=src_enc) as f:
